@@ -8,8 +8,8 @@ import (
 )
 
 // C02: the literals the restore model hard-codes, re-read from redis-shake/common/utils.go on every run:
-//   * every `count == N` of restoreBigRdbEntry / restoreQuicklistEntry (the flush batch size),
-//   * the arguments of `CompareVersion(conf.Options.TargetVersion, "5.0", 2)` in RestoreRdbEntry.
+//   - every `count == N` of restoreBigRdbEntry / restoreQuicklistEntry (the flush batch size),
+//   - the arguments of `CompareVersion(conf.Options.TargetVersion, "5.0", 2)` in RestoreRdbEntry.
 func init() { register(genC02) }
 
 func c02LeanBytes(s string) string {
@@ -30,21 +30,26 @@ func genC02() {
 			continue
 		}
 		n := 0
-		ast.Inspect(fd, func(x ast.Node) bool {
-			be, ok := x.(*ast.BinaryExpr)
-			if !ok || be.Op != token.EQL {
+		for _, scope := range withCallees(rel, fd) {
+			if scope != fd && (scope.Name.Name == "restoreBigRdbEntry" || scope.Name.Name == "restoreQuicklistEntry" || scope.Name.Name == "flushAndCheckReply") {
+				continue
+			}
+			ast.Inspect(scope, func(x ast.Node) bool {
+				be, ok := x.(*ast.BinaryExpr)
+				if !ok || be.Op != token.EQL {
+					return true
+				}
+				id, ok := be.X.(*ast.Ident)
+				if !ok || id.Name != "count" {
+					return true
+				}
+				if v, ok := evalInt(be.Y, constEnv{}); ok {
+					batches = append(batches, fmt.Sprintf("%d", v))
+					n++
+				}
 				return true
-			}
-			id, ok := be.X.(*ast.Ident)
-			if !ok || id.Name != "count" {
-				return true
-			}
-			if v, ok := evalInt(be.Y, constEnv{}); ok {
-				batches = append(batches, fmt.Sprintf("%d", v))
-				n++
-			}
-			return true
-		})
+			})
+		}
 		if n == 0 {
 			fail("%s: no `count == N` comparison found in %s", rel, fn)
 		}
@@ -75,7 +80,7 @@ func genC02() {
 	var b strings.Builder
 	b.WriteString(header)
 	b.WriteString("namespace RSVerif.Generated.C02\n\n")
-	fmt.Fprintf(&b, "/-- every `count == N` in restoreBigRdbEntry and restoreQuicklistEntry, in source order -/\ndef flushBatches : List Nat := [%s]\n", strings.Join(batches, ", "))
+	fmt.Fprintf(&b, "/-- every `count == N` in restoreBigRdbEntry and restoreQuicklistEntry and the unexported helpers they call, in source order -/\ndef flushBatches : List Nat := [%s]\n", strings.Join(batches, ", "))
 	fmt.Fprintf(&b, "/-- second argument of the CompareVersion call of RestoreRdbEntry (%q), as bytes -/\ndef versionRef : List UInt8 := %s\n", verRef, c02LeanBytes(verRef))
 	fmt.Fprintf(&b, "/-- third argument of that call -/\ndef versionLevel : Int := %d\n", verLevel)
 	b.WriteString("\nend RSVerif.Generated.C02\n")
